@@ -18,6 +18,7 @@ BASE_CFG = {
     "max_nodes": 7,
     "n_tables": (1, 2),
     "final_order": 0.3,
+    "block_table_prob": 0.1,
     # polars 1.44 has no Expr.cumsum/cummax/...: ordered windows mostly raise; keep them, but fewer
     "ops": {"ordered_window": 1},
 }
